@@ -608,6 +608,20 @@ theorem pool_cache_must_compare_witness_counterexample :
     ∧ cacheSays HookCfg.current pooled (W.idOf 1) [0x77] = true := by
   refine ⟨by decide, by decide, by decide, by decide, by decide⟩
 
+/-- KNOWN FINDING pool-verdict-predates-soft-fork — why `hverd` is a hypothesis and not a theorem: the pool's verdict is
+    the one under the script flags of the TIP at admission, the block's is under the flags of the block. A pooled
+    transaction T2 that verified before a rule's activation height (`verdictPool`) and fails under the rule
+    (`scriptOk = false` in `W.blockPoolBad`, whose flags the oracle Bool stands for) is vouched for by the hook — the
+    witness hash matches — and the code model connects the block that the specification refuses.  Replayed on the real
+    code by the harness (forkedge.go). -/
+theorem pool_verdict_predates_soft_fork_counterexample :
+    let cache : List CacheEntry := [⟨W.idOf 2, [0x99], .toSend, false⟩]
+    let verdictPool : Bytes → Bool := fun _ => true
+    (∀ e ∈ cache, e.state = .toSend → e.localTx = false → verdictPool e.wtxid = true)
+    ∧ isOk (connectT Cfg.current (cacheChecker HookCfg.current cache (fun _ => [0x99])) W.db0 W.blockPoolBad) = true
+    ∧ failsWith (connectBlock (absList W.mtp0 W.db0) W.blockPoolBad) .script = true := by
+  refine ⟨by decide, by decide, by decide⟩
+
 /-- **Ownership of record bytes.** UndoBlockTxs merges the outputs the set still holds into the record of the undo
     file through a VIEW of the stored record (scripts are slices of its bytes) and serializes the result; with
     `Gen.C04Facts.recordReleasedAfterLastRead` the stored record is released only after that, so on EVERY allocator —
